@@ -68,6 +68,26 @@ func (c *Ctx) havocComp(st *State, key string) {
 }
 
 func (c *Ctx) havocAll(st *State) {
+	// An object this function has allocated and not yet stored, passed or captured anywhere
+	// (a local variable held in a cell, a fresh struct) is out of reach of whatever is being
+	// forgotten here - a callee that may write anything, a loop body - so its contents survive.
+	type kept struct {
+		comp string
+		ref  Term
+		val  Term
+	}
+	var keep []kept
+	for _, k := range sortedKeys(c.unescaped) {
+		pt := c.unescapedT[k]
+		if pt == nil {
+			continue
+		}
+		u := c.unescaped[k]
+		for _, comp := range c.compsOfLoc(c.objLoc(u, pt)) {
+			cur := c.get(st, comp)
+			keep = append(keep, kept{comp, u, app(elemOfArr(cur.Sort), "select", cur, u)})
+		}
+	}
 	epochCounter++
 	st.epoch = epochCounter
 	st.gepoch = epochCounter
@@ -75,6 +95,10 @@ func (c *Ctx) havocAll(st *State) {
 	na := c.fresh("alloc", SInt)
 	c.assume(app(SBool, ">=", na, st.alloc), false)
 	st.alloc = na
+	for _, kp := range keep {
+		cur := c.get(st, kp.comp)
+		c.assume(tEq(app(elemOfArr(cur.Sort), "select", cur, kp.ref), kp.val), false)
+	}
 }
 
 // havocHeap forgets the program heap but keeps ghost components and defer flags.
